@@ -242,6 +242,7 @@ type FNode struct {
 	B    *FNode
 	Ls   []*FNode
 	Mp   map[string]*FNode
+	PLs  *[]*FNode
 }
 
 // Ping/Pong: mutually recursive.
@@ -284,7 +285,7 @@ var StructTypes = []reflect.Type{
 	T(CN1{}), T(CN2{}), T(NMapHolder{}),
 	T(ManyF{}), T(ManyL{}),
 	T(Node{}), T(FNode{}), T(Ping{}), T(Pong{}), T(ENode{}), T(DeepNil{}),
-	T(MapAndLists{}), T(Wrap{}), T(WrapList{}), T(PtrTime{}), T(Named{}), T(SelfAny{}), T(SelfAnyList{}), T(PtrConts{}), T(MutA{}), T(MutB{}), T(MpKeyStruct{}),
+	T(MapAndLists{}), T(Wrap{}), T(WrapList{}), T(PtrTime{}), T(Named{}), T(SelfAny{}), T(SelfAnyList{}), T(PtrConts{}), T(MutA{}), T(MutB{}), T(MpKeyStruct{}), T(MutGraph{}),
 }
 
 // TypeByName finds a zoo struct type.
@@ -544,4 +545,10 @@ type KeyT struct {
 type MpKeyStruct struct {
 	M map[KeyT]string
 	N int32
+}
+
+// MutGraph: both node types of the mutually recursive pair are reachable directly.
+type MutGraph struct {
+	As []*MutA
+	Bs []*MutB
 }
